@@ -166,6 +166,62 @@ class UnknownOp(Exception):
     pass
 
 
+def nexml_of(taxlabels, rows, trees, seqs=None):
+    """a NeXML document, written by the library from scratch objects in a namespace of their own (the writer is C09's matter)"""
+    import dendropy as dp
+    ns = dp.TaxonNamespace(list(taxlabels), is_case_sensitive=True)
+    ds = dp.DataSet()
+    ds.add_taxon_namespace(ns)
+    byl = dict((t.label, t) for t in ns)
+    if rows is not None:
+        m = dp.DnaCharacterMatrix(taxon_namespace=ns)
+        for i, r in enumerate(rows):
+            m.new_sequence(byl[r], m.coerce_values(seqs[i] if seqs else "ACGTACGT"))
+        ds.add(m)
+    if trees is not None:
+        tl = dp.TreeList(taxon_namespace=ns)
+        for labs in trees:
+            t = dp.Tree(taxon_namespace=ns)
+            for lab in labs:
+                nd = dp.Node()
+                nd.taxon = byl[lab]
+                t.seed_node.add_child(nd)
+            tl.append(t)
+        ds.add(tl)
+    return ds.as_string(schema="nexml")
+
+
+def union_labels(docs):
+    out = []
+    for labs in docs:
+        for x in labs:
+            if x not in out:
+                out.append(x)
+    return out
+
+
+def trees_doc(schema, docs):
+    """(document text, labels of its TAXA-like block resolved before the trees) for a source holding the tree statements `docs`"""
+    if schema == "newick":
+        return newick_of(docs), []
+    if schema == "nexus":
+        u = union_labels(docs)
+        return nexus_of(u, None, docs), u
+    if schema == "nexml":
+        return nexml_of(union_labels(docs), None, docs), []
+    raise ValueError(schema)
+
+
+def reader_kw(schema):
+    """a NEXUS source with a TAXA block read into an already populated namespace needs the documented
+    `unconstrained_taxa_accumulation_mode` (otherwise NTAX of the file caps the size of the namespace: TooManyTaxaError)"""
+    return {"unconstrained_taxa_accumulation_mode": True} if schema == "nexus" else {}
+
+
+def op_schema(op, i, default):
+    return op[i] if len(op) > i else default
+
+
 def err_name(e):
     """exception -> the small status enum (by isinstance, so that a subclass of a documented class stays in its class)"""
     from dendropy.utility import error as dperr
@@ -233,9 +289,30 @@ def apply_op(w, op):
             w.reg_tree(t)
     elif k == "read":
         tl = w.lists[op[1]]
-        tl.read(data=newick_of(op[2]), schema="newick", case_sensitive_taxon_labels=bool(tl.taxon_namespace.is_case_sensitive))
+        schema = op_schema(op, 3, "newick")
+        tl.read(data=trees_doc(schema, op[2])[0], schema=schema, case_sensitive_taxon_labels=bool(tl.taxon_namespace.is_case_sensitive),
+                **reader_kw(schema))
         for t in tl:
             w.reg_tree(t)
+    elif k == "tlget":
+        ns = w.nss[op[1]]
+        tl = dp.TreeList.get(data=trees_doc(op[3], op[2])[0], schema=op[3], taxon_namespace=ns,
+                             case_sensitive_taxon_labels=bool(ns.is_case_sensitive), **reader_kw(op[3]))
+        w.reg_list(tl)
+        for t in tl:
+            w.reg_tree(t)
+    elif k == "tget":
+        ns = w.nss[op[1]]
+        t = dp.Tree.get(data=trees_doc(op[3], [op[2]])[0], schema=op[3], taxon_namespace=ns,
+                        case_sensitive_taxon_labels=bool(ns.is_case_sensitive), **reader_kw(op[3]))
+        w.reg_tree(t)
+    elif k == "mget":
+        ns = w.nss[op[1]]
+        seqs = [w.fresh_seq() for _ in op[2]]
+        text = nexus_of(op[2], op[2], None, seqs) if op[3] == "nexus" else nexml_of(op[2], op[2], None, seqs)
+        m = dp.DnaCharacterMatrix.get(data=text, schema=op[3], taxon_namespace=ns, case_sensitive_taxon_labels=bool(ns.is_case_sensitive),
+                                      **reader_kw(op[3]))
+        w.reg_mat(m)
     elif k == "newtree":
         tl = w.lists[op[1]]
         t = tl.new_tree() if op[2] is None else tl.new_tree(w.trees[op[2]])
@@ -303,7 +380,11 @@ def apply_op(w, op):
     elif k == "dsread":
         ds = w.dss[op[1]]
         att = ds.attached_taxon_namespace
-        ds.read(data=nexus_of(op[2], op[3], op[4], [w.fresh_seq() for _ in (op[3] or [])]), schema="nexus", case_sensitive_taxon_labels=bool(att is not None and att.is_case_sensitive))
+        schema = op_schema(op, 5, "nexus")
+        seqs = [w.fresh_seq() for _ in (op[3] or [])]
+        text = (nexus_of(op[2], op[3], op[4], seqs) if schema == "nexus" else
+                nexml_of(op[2], op[3], op[4], seqs) if schema == "nexml" else newick_of(op[4]))
+        ds.read(data=text, schema=schema, case_sensitive_taxon_labels=bool(att is not None and att.is_case_sensitive))
         for ns in ds.taxon_namespaces:
             w.reg_ns(ns)
         for m in ds.char_matrices:
@@ -460,8 +541,22 @@ def enc_op(op):
         return ["setslice", str(op[1]), str(op[2]), str(op[3]), op[4], str(op[5]) if op[4] == "L" else ilist(op[5])]
     if k in ("extend", "iadd", "add"):
         return [k, str(op[1]), op[2], str(op[3]) if op[2] == "L" else ilist(op[3])]
+    def hdocs(docs):
+        return "/".join(",".join(hex6(s) for s in labs) for labs in docs) if docs else "="
+
+    def hlabs(labs):
+        return ",".join(hex6(s) for s in labs) if labs else "="
     if k == "read":
-        return ["read", str(op[1]), "/".join(",".join(hex6(s) for s in labs) for labs in op[2]) if op[2] else "="]
+        schema = op_schema(op, 3, "newick")
+        if schema == "nexus":
+            return ["readx", str(op[1]), hlabs(union_labels(op[2])), hdocs(op[2])]
+        return ["read", str(op[1]), hdocs(op[2])]
+    if k == "tlget":
+        return ["tlget", str(op[1]), hlabs(union_labels(op[2]) if op[3] == "nexus" else []), hdocs(op[2])]
+    if k == "tget":
+        return ["tget", str(op[1]), hlabs(op[2] if op[3] == "nexus" else []), hlabs(op[2])]
+    if k == "mget":
+        return ["mget", str(op[1]), "0" if op[3] == "nexus" else "1", hlabs(op[2] if op[3] == "nexus" else []), hlabs(op[2])]
     if k == "newtree":
         return ["newtree", str(op[1]), oint(op[2])]
     if k == "getslice":
@@ -493,6 +588,8 @@ def enc_op(op):
     if k == "dsunify":
         return ["dsunify", str(op[1]), oint(op[2])]
     if k == "dsread":
+        if op_schema(op, 5, "nexus") == "newick":
+            return ["dsread", str(op[1]), "=", "-", hdocs(op[4])]
         return ["dsread", str(op[1]), ",".join(hex6(s) for s in op[2]) if op[2] else "=",
                 "-" if op[3] is None else (",".join(hex6(s) for s in op[3]) if op[3] else "="),
                 "-" if op[4] is None else ("/".join(",".join(hex6(s) for s in labs) for labs in op[4]) if op[4] else "=")]
@@ -635,6 +732,10 @@ class Watch(object):
                 self.target = L[op[1]].taxon_namespace
                 self.mode = "read"
                 self.n0 = len(L[op[1]]._trees)
+            elif k in ("tlget", "tget", "mget"):
+                self.target = w.nss[op[1]]
+                self.mode = "read"
+                self.n0 = 0
             elif k == "dsread":
                 ds = w.dss[op[1]]
                 self.target = ds.attached_taxon_namespace
@@ -697,17 +798,42 @@ class Watch(object):
                     if [None if x is None else kf(x.label) for x in got] != [kf(s) for s in labs]:
                         out.append(("b", "tree read from labels %r carries %r" % (labs, [None if x is None else x.label for x in got])))
             return out
-        if self.mode == "read":
-            tl = w.lists[op[1]]
-            new = tl._trees[self.n0:]
-            if len(new) != len(op[2]):
-                return [("b", "read delivered %d trees for %d statements" % (len(new), len(op[2])))]
-            for t, labs in zip(new, op[2]):
+        if self.mode == "read" and op[0] == "mget":
+            m = w.mats[-1]
+            target = self.target
+            if m.taxon_namespace is not target:
+                out.append(("a-matrix", "matrix read with taxon_namespace=ns is bound to another namespace"))
+            kf0 = keyf(target.is_case_sensitive)
+            keys = list(m._taxon_sequence_map.keys())
+            if sorted(kf0(x.label) for x in keys) != sorted({kf0(s_) for s_ in op[2]}):
+                out.append(("b", "matrix read from rows %r carries labels %r" % (op[2], sorted(x.label for x in keys))))
+            for lab in op[2]:
+                c = [x for x in keys if kf0(x.label) == kf0(lab)]
+                if len(c) == 1:
+                    pairs.append((lab, c[0], None, False))
+        elif self.mode == "read":
+            if op[0] == "read":
+                tl = w.lists[op[1]]
+                new, docs = tl._trees[self.n0:], op[2]
+                target = tl.taxon_namespace
+            elif op[0] == "tlget":
+                tl = w.lists[-1]
+                new, docs = list(tl._trees), op[2]
+                target = self.target
+                if tl.taxon_namespace is not target:
+                    out.append(("a-list", "tree list read with taxon_namespace=ns is bound to another namespace"))
+            else:
+                new, docs = [w.trees[-1]], [op[2]]
+                target = self.target
+                if new[0].taxon_namespace is not target:
+                    out.append(("c", "tree read with taxon_namespace=ns is bound to another namespace"))
+            if len(new) != len(docs):
+                return [("b", "read delivered %d trees for %d statements" % (len(new), len(docs)))]
+            for t, labs in zip(new, docs):
                 leaves = [nd.taxon for nd in nodes_preorder(t) if not nd._child_nodes]
                 if len(leaves) != len(labs):
                     return [("b", "read tree has %d leaves for %d labels" % (len(leaves), len(labs)))]
                 pairs += [(lab, x, None, False) for lab, x in zip(labs, leaves)]
-            target = tl.taxon_namespace
         else:
             target = self.target
             for kind, obj, old in self.before:
@@ -1022,7 +1148,7 @@ def random_op(rng, w, allow_known=False):
     nN, nT, nL, nM, nD = len(w.nss), len(w.trees), len(w.lists), len(w.mats), len(w.dss)
     kinds = ["append", "append", "insert", "setitem", "setslice", "extend", "iadd", "add", "read", "newtree", "getslice", "pop",
              "remove", "lclone", "tclone", "mclone", "tmig", "trec", "lmig", "lrec", "mmig", "mrec", "mset", "mnew", "dsadd",
-             "dsnewlist", "dsnewmat", "dsnewns", "dsattach", "dsdetach", "dsunify", "dsread", "tree", "tlist", "ns", "mat", "taadd", "newtreeseed", "newtreeseed", "treeseed"]
+             "dsnewlist", "dsnewmat", "dsnewns", "dsattach", "dsdetach", "dsunify", "dsread", "tree", "tlist", "ns", "mat", "taadd", "newtreeseed", "newtreeseed", "treeseed", "read", "tlget", "tget", "mget"]
     k = rng.choice(kinds)
     pool = LABEL_POOL
 
@@ -1086,8 +1212,22 @@ def random_op(rng, w, allow_known=False):
             b = rng.randint(a, len(tl))
             return ["setslice", L, a, b, kind, arg]
         return [k, L, kind, arg]
+    def gen_docs(schema):
+        if schema == "nexml":
+            # the <otu> elements of one document are distinct OTUs: their labels differ also under the case rule
+            tax = labs(1, 5, True)
+            return [[x for x in tax if rng.random() < 0.8] or tax[:1] for _ in range(rng.randint(1, 2))]
+        return [labs(1, 4, True) for _ in range(rng.randint(1, 2))]
     if k == "read" and nL:
-        return ["read", rng.randrange(nL), [labs(1, 4, True) for _ in range(rng.randint(1, 2))]]
+        schema = rng.choice(["newick", "nexus", "nexml"])
+        return ["read", rng.randrange(nL), gen_docs(schema), schema]
+    if k == "tlget" and nN:
+        schema = rng.choice(["newick", "nexus", "nexml"])
+        return ["tlget", rng.randrange(nN), gen_docs(schema), schema]
+    if k == "tget" and nN:
+        return ["tget", rng.randrange(nN), labs(1, 4, True), rng.choice(["newick", "nexus", "nexml"])]
+    if k == "mget" and nN:
+        return ["mget", rng.randrange(nN), labs(1, 4, True), rng.choice(["nexus", "nexml"])]
     if k == "newtree" and nL:
         return ["newtree", rng.randrange(nL), rng.randrange(nT) if nT and rng.random() < 0.6 else None]
     if k == "getslice" and nL:
@@ -1179,7 +1319,18 @@ def random_op(rng, w, allow_known=False):
         tax = labs(1, 5, True)
         mat = None if rng.random() < 0.4 else [s for s in tax if rng.random() < 0.7]
         trees = None if rng.random() < 0.3 else [[s for s in tax if rng.random() < 0.8] or tax[:1] for _ in range(rng.randint(1, 2))]
-        return ["dsread", rng.randrange(nD), tax, mat, trees]
+        D = rng.randrange(nD)
+        schema = rng.choice(["nexus", "nexus", "nexml", "newick"])
+        att = w.dss[D].attached_taxon_namespace
+        if schema == "nexml" and att is not None and (has_dup_keys(att) or len({str(t.label).lower() for t in att._taxa}) != len(att._taxa)
+                                                       and not att.is_case_sensitive):
+            schema = "nexus"   # NeXML resolves <otu> labels through a dictionary (last match); the model's dsread is first-match
+        if schema == "newick":
+            if trees is None:
+                schema = "nexus"
+            else:
+                return ["dsread", D, [], None, trees, "newick"]
+        return ["dsread", D, tax, mat, trees, schema]
     return None
 
 
